@@ -475,6 +475,12 @@ def Arg.denotes (d : Dialect) (env : Env) : Arg → Option Int → Prop
   | .const c, v => v = some c
   | .expr x, v => ∃ i, eval d env x = .ok (.int i) ∧ v = some i
 
+/-- as `denotes`, and a bound expression that evaluates to NULL denotes Python's None (`s[None:j]`) -/
+def Arg.denotesN (d : Dialect) (env : Env) : Arg → Option Int → Prop
+  | .omitted, v => v = none
+  | .const c, v => v = some c
+  | .expr x, v => (∃ i, eval d env x = .ok (.int i) ∧ v = some i) ∨ (eval d env x = .ok .null ∧ v = none)
+
 def Arg.isConstStart : Arg → Bool
   | .expr _ => false
   | _ => true
